@@ -101,5 +101,5 @@ Definition change_assets_gen (reval : bool) (cfg : config) (rq : change_req) (ou
   end.
 
 (* the state of /repo *)
-Definition topup_revalidates : bool := false.
+Definition topup_revalidates : bool := true.
 Definition change_assets := change_assets_gen topup_revalidates.
